@@ -635,6 +635,10 @@ def check(prog_ast, inp, items, prog_c, stats, with_end=False, max_runs=40, poin
     if alt == "explained":
         stats["explained_by_stale_last"] = stats.get("explained_by_stale_last", 0) + 1
         return ("last-after-yield-is-next-byte", "explained by $last evaluating to the byte that follows the yield; primary symptom: %s: %s" % v)
+    alt = _search(prog_ast, inp, items, prog_c, {}, with_end, max_runs, pointers, "both")
+    if alt == "explained":
+        stats["explained_by_stale_last_and_reread"] = stats.get("explained_by_stale_last_and_reread", 0) + 1
+        return ("last-after-yield-is-next-byte", "explained by K7 ($last behind a yield is the next byte) together with K6 (handler re-reads the last consumed byte); primary symptom: %s: %s" % v)
     return v
 
 
@@ -650,7 +654,7 @@ def _search(prog_ast, inp, items, prog_c, stats, with_end, max_runs, pointers, r
         seen.add(dec)
         tried += 1
         try:
-            r = RI(prog_ast, inp, with_end=with_end, decisions=dec, reread=reread == "reread", stale_last=reread == "stale_last").run()
+            r = RI(prog_ast, inp, with_end=with_end, decisions=dec, reread=reread in ("reread", "both"), stale_last=reread in ("stale_last", "both")).run()
         except Unknown as u:
             return ("unknown", str(u))
         except RecursionError:
@@ -658,7 +662,8 @@ def _search(prog_ast, inp, items, prog_c, stats, with_end, max_runs, pointers, r
         v = match_trace(r, items, prog_c, len(inp), stats, pointers=pointers)
         if reread:
             if v is None:
-                return "explained" if ("reread-handled" if reread == "reread" else "stale-last-applied") in r.flags else "not-explained"
+                need = {"reread": {"reread-handled"}, "stale_last": {"stale-last-applied"}, "both": {"reread-handled", "stale-last-applied"}}[reread]
+                return "explained" if need <= r.flags else "not-explained"
         elif v is None:
             if dec:
                 stats["needed_drop_rule"] = stats.get("needed_drop_rule", 0) + 1
